@@ -276,7 +276,7 @@ def ctx_cases(kinds=("int",), max_depth=3, unions_only=False, probe=None):
     parents = _parents()
     out = collections.OrderedDict()
     seen = set()
-    prefix = "x" if key == (("int",), 3, False) else "y%d_" % len(_CTX)
+    prefix = "x" if key[0] == ("int",) and not unions_only else "y%d_" % len(_CTX)
     for c in cases:
         for chain in _chains(parents, c.name, max_depth):
             through = any("or" in w for (_, _, w) in chain)
